@@ -10,19 +10,23 @@ Open Scope Z_scope.
 
 (* ------------------------------------------------------------------ multi-hop = composition (exact-in) *)
 (* the routed result is the left fold of "taker fee, then the pool's swap" over the hops, with the caller's minimum on
-   the last hop only and 1 before *)
+   the last hop only and 1 before; then TakerFeeSkim validates the share agreements of the route's denoms *)
 Theorem C05_route_in_eq_fold : forall P route s sender dIn amt minOut, route <> [] ->
   route_exact_in P s sender route dIn amt minOut =
   match fold_left (in_step P sender) (combine route (hop_mins route minOut)) (Ok (s, (dIn, amt))) with
   | Err e => Err e
-  | Ok (s', (_, out)) => Ok (s', out)
+  | Ok (s', (_, out)) => if skim_ok P s' (dIn :: map snd route) then Ok (s', out) else Err ESkim
   end.
 Proof. exact route_in_eq_fold. Qed.
 Print Assumptions C05_route_in_eq_fold.
 
 (* ... and, at message level: a multi-hop MsgSwapExactAmountIn is exactly the single-hop message for the first hop
-   followed by the message for the rest of the route fed with the first hop's output (any pools, repeated or not) *)
+   followed by the message for the rest of the route fed with the first hop's output (any pools, repeated or not) -
+   provided the taker-fee share agreements let the route and its two parts through (always the case when the route's
+   denoms have no agreement, or agreements adding up to at most 100 %; otherwise see C05_compose_skim_refuted) *)
 Theorem C05_route_in_compose : forall P s sender h rest dIn amt minOut, rest <> [] -> 0 < minOut ->
+  skim_ok P s (dIn :: map snd (h :: rest)) = true -> skim_ok P s [dIn; snd h] = true ->
+  skim_ok P s (snd h :: map snd rest) = true ->
   handle P s (MSwapIn sender (h :: rest) dIn amt minOut) =
   match handle P s (MSwapIn sender [h] dIn amt 1) with
   | Err e => Err e
@@ -41,7 +45,8 @@ Theorem C05_route_out_eq_fold : forall P, PoolLaws P -> forall route s sender ma
   | Ok ins =>
     match fold_left (out_step P sender) (out_hops true route (maxIn :: tl ins) dOutF amtF) (Ok (s, [])) with
     | Err e => route_exact_out P s sender route maxIn dOutF amtF = Err e
-    | Ok (s', ts) => route_exact_out P s sender route maxIn dOutF amtF = Ok (s', hd 0 ts)
+    | Ok (s', ts) => route_exact_out P s sender route maxIn dOutF amtF =
+                     if skim_ok P s' (dOutF :: map snd route) then Ok (s', hd 0 ts) else Err ESkim
     end
   end.
 Proof. exact route_out_eq_fold. Qed.
@@ -52,6 +57,7 @@ Print Assumptions C05_route_out_eq_fold.
    estimate as its maximum (fee-paying sender; the first pool does not occur again) *)
 Theorem C05_route_out_compose : forall P, PoolLaws P -> forall s sender pid dIn rest maxIn dOutF amtF s' t,
   rest <> [] -> fee_neutral P s sender -> ~ In pid (map fst rest) ->
+  skim_ok P s [snd (hd (0, 0) rest); dIn] = true -> skim_ok P s (dOutF :: map snd rest) = true ->
   handle P s (MSwapOut sender ((pid, dIn) :: rest) maxIn dOutF amtF) = Ok (s', t) ->
   exists a1 s1 t',
     estimate_out P s rest dOutF amtF = (s, Ok a1) /\
@@ -59,6 +65,22 @@ Theorem C05_route_out_compose : forall P, PoolLaws P -> forall s sender pid dIn 
     handle P s1 (MSwapOut sender rest a1 dOutF amtF) = Ok (s', t').
 Proof. exact swap_out_msg_compose. Qed.
 Print Assumptions C05_route_out_compose.
+
+(* REFUTED without the share-agreement condition (finding C05-F3): with taker-fee share agreements of 60 % on the first
+   and on the last denom of a two-hop route, each hop alone passes TakerFeeSkim (60 %), the routed swap does not (120 %):
+   the routed swap fails as a whole although performing the hops one after another succeeds *)
+Theorem C05_compose_skim_refuted :
+  ~ (forall s sender h rest dIn amt minOut, rest <> [] -> 0 < minOut ->
+       handle CP s (MSwapIn sender (h :: rest) dIn amt minOut) =
+       match handle CP s (MSwapIn sender [h] dIn amt 1) with
+       | Err e => Err e
+       | Ok (s1, out) => handle CP s1 (MSwapIn sender rest (snd h) out minOut)
+       end).
+Proof.
+  intro H. specialize (H ex_state_skim (Trader 0) (1, 2) [(2, 3)] 1 10000 1 ltac:(discriminate) ltac:(reflexivity)).
+  apply (f_equal res_err) in H. vm_compute in H. discriminate H.
+Qed.
+Print Assumptions C05_compose_skim_refuted.
 
 (* ------------------------------------------------------------------ the per-hop taker fee is exactly rounded *)
 (* exact-in: the amount swapped is floor(tokenIn * (1 - fee)), the fee is the rest, between 0 and tokenIn *)
